@@ -170,6 +170,13 @@ func runC02(p *P, r *R) {
 	}
 	r.count("R02.3", "recycle sites in chain walkers", nWalk, 2)
 
+	// R02.6 the slot reader used by chain walkers accepts every slot the creator lays out
+	if f := p.fn("(*bufferManager).readBufferSlice"); f != nil {
+		guardTightness(p, r, "R02.6", []*ssa.Function{f}, 2)
+	} else {
+		r.fail("R02.6", "anchor (*bufferManager).readBufferSlice", "", "function not found")
+	}
+
 	// R02.5 at most one push per recycleBuffer call
 	rb := p.fn("(*bufferManager).recycleBuffer")
 	if rb == nil {
